@@ -66,6 +66,12 @@ func buildReusePlan() []reusePlan {
 	both("mutate-after-return", "write", "mutate:*", "mutate:*", "write", "mutate:b.key", "write")
 	both("identical-sets-fresh-buffers", "write", "fresh-copy", "write", "fresh-copy", "write", "write", "fresh-new", "write", "write", "mutate:*", "write")
 	out = append(out, reusePlan{Name: "same-map-keys-change", Sizes: three(), Ops: []string{"write", "del:a.crt", "mutate:b.key", "write", "add:d.txt", "write", "resize:b.key", "write", "mutate:*", "write", "del:d.txt", "write"}})
+	// zero-length and nil contents in a caller-owned map: "empty:<name>" sets the
+	// value to nil, "zero:<name>" to an empty non-nil slice, "resize" makes it non-empty again
+	out = append(out, reusePlan{Name: "empty-and-nil-contents", Sizes: map[string]int{"a.crt": 0, "b.key": sz(), "c.pem": sz()},
+		Ops: []string{"write", "mutate:b.key", "write", "empty:c.pem", "write", "resize:a.crt", "write", "zero:b.key", "write", "resize:c.pem", "write", "empty:a.crt", "empty:b.key", "empty:c.pem", "write", "fresh-copy", "write"}})
+	out = append(out, reusePlan{Name: "empty-and-nil-contents", Sizes: map[string]int{"b.key": 0},
+		Ops: []string{"write", "resize:b.key", "write", "empty:b.key", "write", "write", "zero:b.key", "write", "resize:b.key", "write"}})
 	// seeded mixtures
 	n := mon.Pick(12, 300)
 	pool := []string{"a.crt", "b.key", "c.pem", "d.txt"}
@@ -260,6 +266,15 @@ func runReuse(idx int, p reusePlan, root string) {
 				fill(arg, m[arg])
 				keysCh = true
 			}
+		case "empty", "zero":
+			if _, ok := m[arg]; ok {
+				if kind == "empty" {
+					m[arg] = nil
+				} else {
+					m[arg] = []byte{}
+				}
+				sliceRepl = true
+			}
 		case "resize":
 			if b, ok := m[arg]; ok {
 				m[arg] = make([]byte, len(b)+17)
@@ -268,6 +283,14 @@ func runReuse(idx int, p reusePlan, root string) {
 			}
 		case "write":
 			want := digestsOf(m)
+			for _, b := range m {
+				switch {
+				case b == nil:
+					rec.Count("reuse.content.nil", 1)
+				case len(b) == 0:
+					rec.Count("reuse.content.zero-length", 1)
+				}
+			}
 			rel := "first"
 			if len(history) > 0 {
 				same := equalSet(want, history[len(history)-1])
